@@ -126,3 +126,105 @@ UNITS = [
     Unit("c02_partition_distinct", build_partition_distinct, "h_pd", timeout=120, must_have=[r"lemma.partition_distinct", r"lemma.partition_range"],
          checks=["--bounds-check", "--pointer-check"], note="lemma: charge-partitioned vacancy indices of distinct threads are distinct"),
 ]
+
+
+# ---------------------------------------------------------------------------
+# LocateAliveExecutor
+# ---------------------------------------------------------------------------
+from vkit.extract import IIFE  # noqa: E402
+
+EXEC_MODEL = """
+#include <stdlib.h>
+enum { TS_inactive = 0, TS_initializing = 1, TS_alive = 2, TS_errored = 3, TS_killed = 4 };   /* TrackStatus, bound in bindings.cc */
+enum { TO_none = 0, TO_init_charge = 1 };                                                       /* TrackOrder::none, ::init_charge (bound) */
+typedef struct { size_type particle_id; real_type energy; real_type direction[3]; } Secondary;
+typedef struct { Secondary* ptr; size_type size; } SpanSecondary;
+typedef struct { int* status; SpanSecondary* secondaries; size_type size_;
+                 struct { TrackSlotId* vacancies; size_type* secondary_counts; } init; } CoreStateData;   /* the members this kernel touches */
+typedef struct { struct { int track_order; } init; } CoreParamsData;
+typedef struct { CoreParamsData const* params; CoreStateData* state; } Executor;
+typedef struct { CoreStateData* st; TrackSlotId tid; } SimTrackView;
+typedef struct { CoreStateData* st; TrackSlotId tid; } PhysicsStepView;
+/* view accessors used here: plain reads of the slot's entry */
+static int STV_status(SimTrackView const* v) { return v->st->status[v->tid]; }
+static SpanSecondary PSV_secondaries(PhysicsStepView const* v) { return v->st->secondaries[v->tid]; }
+#define NSLOT_MAX 64
+#define NSEC_MAX 1024
+size_type g_k; TrackSlotId g_old_vac; size_type g_old_cnt;   /* ghost: witness slot and its entries before the call (frame) */
+size_type g_valid;                                            /* ghost: number of valid secondaries seen by the loop */
+"""
+
+LA_RULES = [
+    Rule(r"state->size\(\)", "self->state->size_", 1, note="CoreStateData::size()"),
+    Rule(r"size_type num_secondaries\{0\};", "size_type num_secondaries = 0; g_valid = 0;", 1, note="brace init; ghost init"),
+    Rule(r"SimTrackView sim\(params->sim, state->sim, tid\);", "SimTrackView sim = {self->state, tid};", 1, note="view construction (constructor EXPECT tid < size is the executor's own EXPECT)"),
+    Rule(r"PhysicsStepView phys\(params->physics, state->physics, tid\);", "PhysicsStepView phys = {self->state, tid};", 1, note="view construction"),
+    Rule(r"for \(auto const& secondary : phys\.secondaries\(\)\)\s*\{", "SpanSecondary sp_ = PSV_secondaries(&phys);\n        for (size_type si_ = 0; si_ < sp_.size; ++si_)\n        {\n            Secondary const* secondary = &sp_.ptr[si_];", 1, note="range-for over a Span -> index loop"),
+    Rule(r"if \(secondary\)", "if (secondary->particle_id != INVALID_ID)", 1, note="Secondary::operator bool = valid particle id"),
+    Rule(r"\+\+num_secondaries;", "++num_secondaries; ++g_valid;", 1, note="ghost count"),
+    Rule(r"sim\.status\(\)", "STV_status(&sim)", "+", note="view member call"),
+    Rule(r"TrackStatus::(\w+)", r"TS_\1", "+", note="enum class value (bound)"),
+    Rule(r"TrackOrder::(\w+)", r"TO_\1", "+", note="enum class value (bound)"),
+    Rule(r"params->init\.track_order", "self->params->init.track_order", 1, note="executor data member"),
+    Rule(r"\boccupied\(\)", "INVALID_ID /* occupied() == TrackSlotId{} */", "+", note="detail::occupied() returns TrackSlotId{} (checked on the extracted text)"),
+    Rule(r"state->init\.(vacancies|secondary_counts)\[tid\]", r"self->state->init.\1[tid]", 2, note="Collection[tid]; tid < size by the executor's EXPECT"),
+    IIFE(["TrackSlotId"]),
+    LoopContracts([
+        "    __CPROVER_assigns(si_, num_secondaries, g_valid)\n"
+        "    __CPROVER_loop_invariant(si_ <= sp_.size && num_secondaries == g_valid && g_valid <= si_)\n"
+        "    __CPROVER_decreases(sp_.size - si_)\n"]),
+]
+
+
+def build_locate_alive(ctx):
+    import re
+    from vkit.extract import ExtractionDrift
+    occ = ctx.func(UT, r"CELER_CONSTEXPR_FUNCTION TrackSlotId occupied\(\)", [], name="detail::occupied")
+    if not re.search(r"return\s+TrackSlotId\{\};", occ.body):
+        raise ExtractionDrift("occupied() is not `return TrackSlotId{};`")
+    pc = ctx.func(LA, r"CELER_FUNCTION void LocateAliveExecutor::operator\(\)\(TrackSlotId tid\) const", LA_RULES, name="LocateAliveExecutor::operator()")
+    return (HDR + ID_TYPES + EXEC_MODEL + """
+#define ST (self->state)
+#define IN_PLACE(self_, tid_, nvalid_) (ST->status[tid_] != TS_alive && (nvalid_) > 0 && (self_)->params->init.track_order != TO_init_charge)
+void LA_call(Executor const* self, TrackSlotId tid)
+__CPROVER_requires(self != 0 && self->params != 0 && self->state != 0 && ST->size_ >= 1 && ST->size_ <= NSLOT_MAX)
+__CPROVER_requires(__CPROVER_r_ok(ST->status, ST->size_ * sizeof(int)) && __CPROVER_r_ok(ST->secondaries, ST->size_ * sizeof(SpanSecondary)))
+__CPROVER_requires(__CPROVER_rw_ok(ST->init.vacancies, ST->size_ * sizeof(TrackSlotId)) && __CPROVER_rw_ok(ST->init.secondary_counts, ST->size_ * sizeof(size_type)))
+__CPROVER_requires(tid < ST->size_)      /* own CELER_EXPECT */
+__CPROVER_requires(ST->secondaries[tid].size <= NSEC_MAX && __CPROVER_r_ok(ST->secondaries[tid].ptr, ST->secondaries[tid].size * sizeof(Secondary)))
+__CPROVER_requires(g_k < ST->size_ && g_old_vac == ST->init.vacancies[g_k] && g_old_cnt == ST->init.secondary_counts[g_k])
+__CPROVER_assigns(ST->init.vacancies[tid], ST->init.secondary_counts[tid], g_valid)
+/* the slot is either marked occupied or offered as a vacancy under its own index */
+__CPROVER_ensures(ST->init.vacancies[tid] == INVALID_ID || ST->init.vacancies[tid] == tid)
+/* occupied iff alive, or dying with a secondary that will take the slot over (never under charge-partitioned initialisation) */
+__CPROVER_ensures((ST->init.vacancies[tid] == INVALID_ID) == (ST->status[tid] == TS_alive || IN_PLACE(self, tid, ST->status[tid] != TS_inactive ? g_valid : 0)))
+/* an inactive slot never contributes secondaries, whatever stale data its span holds */
+__CPROVER_ensures(ST->status[tid] == TS_inactive ==> (ST->init.secondary_counts[tid] == 0 && ST->init.vacancies[tid] == tid))
+/* count = number of valid secondaries, minus the one initialised in place */
+__CPROVER_ensures(ST->status[tid] != TS_inactive ==> ST->init.secondary_counts[tid] == g_valid - (IN_PLACE(self, tid, g_valid) ? 1 : 0))
+/* frame: no other slot's entries are written */
+__CPROVER_ensures(g_k != tid ==> (ST->init.vacancies[g_k] == g_old_vac && ST->init.secondary_counts[g_k] == g_old_cnt))
+{""" + pc.body + """}
+void h_la(void)
+{
+    size_type n, tid, k, ns; int order; __CPROVER_assume(n >= 1 && n <= NSLOT_MAX && k < n && ns <= NSEC_MAX);
+    int* status = malloc(n * sizeof(int)); SpanSecondary* spans = malloc(n * sizeof(SpanSecondary));
+    TrackSlotId* vac = malloc(n * sizeof(TrackSlotId)); size_type* cnt = malloc(n * sizeof(size_type));
+    Secondary* secs = malloc(ns * sizeof(Secondary));
+    __CPROVER_assume(status && spans && vac && cnt && secs);
+    CoreParamsData p = {{order}}; CoreStateData s = {status, spans, n, {vac, cnt}};
+    Executor ex = {&p, &s};
+    if (tid < n) { spans[tid].ptr = secs; spans[tid].size = ns; __CPROVER_assume(status[tid] >= 0 && status[tid] <= 4); }
+    g_k = k; g_old_vac = vac[k]; g_old_cnt = cnt[k];
+    LA_call(&ex, tid);
+    VERIF_CANARY();
+}
+""")
+
+
+UNITS += [
+    Unit("c02_locate_alive", build_locate_alive, "h_la", enforce="LA_call", loop_contracts=True, timeout=300, object_bits=10,
+         must_have=[r"LA_call.postcondition", r"loop_invariant_step", r"celer_expect"], checks=["--bounds-check", "--pointer-check"],
+         assumptions=["SimTrackView::status() and PhysicsStepView::secondaries() are plain reads of the slot's entries (view accessors stubbed)"],
+         note="LocateAliveExecutor: vacancy entry in {occupied, tid}; occupied iff alive or in-place secondary; inactive slots count 0 regardless of stale spans; count = valid secondaries minus the in-place one; only this slot's entries written (any number of secondaries)"),
+]
